@@ -12,6 +12,9 @@ import subprocess
 import tempfile
 
 PY = '/venv/bin/python'
+# the tools evaluate the tree they live in (so that a frozen copy of /verif and of /repo can be evaluated while work goes on)
+VERIF_ROOT = os.path.dirname(os.path.dirname(os.path.abspath(__file__)))
+SRC_REPO = os.environ.get('NV_SRC_REPO', '/repo')
 ALL = ['C%02d' % i for i in range(1, 21)]
 
 
@@ -26,13 +29,13 @@ def main():
     ap.add_argument('--src')
     ap.add_argument('--checks', default=','.join(ALL))
     a = ap.parse_args()
-    dst = '/verif/selftest/equiv/%s' % a.name
+    dst = VERIF_ROOT + '/selftest/equiv/%s' % a.name
     src = a.src or dst
     patch = os.path.join(src, 'patch.diff')
     d = tempfile.mkdtemp(prefix='nvequiv.')
     meta = {'name': a.name}
     try:
-        sh('rsync -a --exclude .git --exclude "*.egg-info" --exclude __pycache__ --exclude _equiv /repo/ %s/' % d)
+        sh('rsync -a --exclude .git --exclude "*.egg-info" --exclude __pycache__ --exclude _equiv %s/ %s/' % (SRC_REPO, d))
         rcp, outp = sh('patch -p1 -s < %s' % patch, cwd=d)
         meta['patch_applies'] = rcp == 0
         env = dict(os.environ, PYTHONPATH=d, PYTHONDONTWRITEBYTECODE='1')
@@ -40,7 +43,7 @@ def main():
         meta['repo_tests_with_patch'] = outt.strip().split('\n')[-1]
         res = {}
         for cid in a.checks.split(','):
-            rcc, outc = sh(['./check', cid, '--tier', 'quick'], cwd='/verif', env=dict(os.environ, NV_REPO=d))
+            rcc, outc = sh(['./check', cid, '--tier', 'quick'], cwd=VERIF_ROOT, env=dict(os.environ, NV_REPO=d))
             keys = [l.strip()[:300] for l in outc.split('\n') if l.strip().startswith('key=') or 'INCONCLUSIVE' in l]
             res[cid] = {'exit': rcc, 'keys': keys[:5]}
         meta['checks'] = res
